@@ -22,16 +22,29 @@ import numpy as np
 import porepy as pp
 
 
+def origin(recipe) -> np.ndarray:
+    """Lower corner of the domain (optional recipe key "origin", default the origin).
+    Fracture coordinates in the recipe are relative to it."""
+    o = np.zeros(3)
+    if recipe.get("origin") is not None:
+        o[:recipe["dim"]] = np.asarray(recipe["origin"], dtype=float)
+    return o
+
+
 def build(recipe):
     dim = recipe["dim"]
     L = [float(v) for v in recipe["domain"]]
+    o = origin(recipe)
     if dim == 2:
-        domain = pp.Domain({"xmin": 0.0, "xmax": L[0], "ymin": 0.0, "ymax": L[1]})
-        fracs = [pp.LineFracture(np.array(f, dtype=float).T) for f in recipe["fractures"]]
+        domain = pp.Domain({"xmin": o[0], "xmax": o[0] + L[0],
+                            "ymin": o[1], "ymax": o[1] + L[1]})
+        fracs = [pp.LineFracture(np.array(f, dtype=float).T + o[:2, None])
+                 for f in recipe["fractures"]]
     else:
-        domain = pp.Domain({"xmin": 0.0, "xmax": L[0], "ymin": 0.0, "ymax": L[1],
-                            "zmin": 0.0, "zmax": L[2]})
-        fracs = [pp.PlaneFracture(np.array(f, dtype=float).T) for f in recipe["fractures"]]
+        domain = pp.Domain({"xmin": o[0], "xmax": o[0] + L[0], "ymin": o[1],
+                            "ymax": o[1] + L[1], "zmin": o[2], "zmax": o[2] + L[2]})
+        fracs = [pp.PlaneFracture(np.array(f, dtype=float).T + o[:, None])
+                 for f in recipe["fractures"]]
     net = pp.create_fracture_network(fracs, domain)
     if recipe["mesh"] == "cartesian":
         n = recipe["n"]
